@@ -1,6 +1,6 @@
 (** Templ/Proofs.v — lemmas and theorems about the model of Templ/Model.v (C15). *)
 From Sq Require Import Base.Bytes Templ.Model.
-From Sq Require Export Templ.IterProofs Templ.ProcProofs.
+From Sq Require Export Templ.IterProofs Templ.ProcProofs Templ.LitProofs.
 From Coq Require Import ZArith Lia.
 
 (** * The code before the repair (fix 7ed96a0): witnesses *)
@@ -179,3 +179,10 @@ Example ex_split :
   iter_segments [mk_ts SLit 0 2 0 2; mk_ts STempl 2 4 2 4] [mk_el 0 1 false; mk_el 1 3 true; mk_el 3 4 false]
   = Some [mk_seg 0 1 0 1 0 1; mk_seg 1 2 1 2 0 1; mk_seg 2 4 2 3 1 2; mk_seg 2 4 3 4 0 1].
 Proof. vm_compute. reflexivity. Qed.
+
+(** [is_source_slice_literal] on the raw slices [process] makes: the model instance *)
+Example ex_literal :
+  is_source_slice_literal [mk_rs [97;98] SLit 0; mk_rs [58;120] STempl 2; mk_rs [32;99] SLit 4] 0 2 = true /\
+  is_source_slice_literal [mk_rs [97;98] SLit 0; mk_rs [58;120] STempl 2; mk_rs [32;99] SLit 4] 1 3 = false /\
+  raw_tiling ex_src [mk_rs [97;98] SLit 0; mk_rs [58;120] STempl 2; mk_rs [32;99] SLit 4] 0.
+Proof. split; [reflexivity|]. split; [reflexivity|]. cbn. repeat apply conj; auto; lia. Qed.
